@@ -125,8 +125,14 @@ fn check(args: &Args) -> i32 {
         "C01" => {
             parts.push(run_part(&e2e::E2eSim, &cfg("e2esim"), &known, &mut verdict));
         }
+        "C07" => {
+            parts.push(run_part(&e2e::shutdown::ShutdownSim, &cfg("shutdown"), &known, &mut verdict));
+        }
         "C08" => {
             parts.push(run_part(&e2e::sniff::SniffSim, &cfg("sniff"), &known, &mut verdict));
+        }
+        "C09" => {
+            parts.push(run_part(&e2e::srvfault::SrvFaultSim, &cfg("srvfault"), &known, &mut verdict));
         }
         "C18" => {
             parts.push(run_part(&iosim::IoSim, &cfg("iosim"), &known, &mut verdict));
@@ -220,7 +226,9 @@ fn replay(args: &Args) -> i32 {
         "eyesim" => replay_with(&eyesim::EyeSim { property: "C10" }, &rf, args.machine),
         "iosim" => replay_with(&iosim::IoSim, &rf, args.machine),
         "e2esim" => replay_with(&e2e::E2eSim, &rf, args.machine),
+        "shutdown" => replay_with(&e2e::shutdown::ShutdownSim, &rf, args.machine),
         "sniff" => replay_with(&e2e::sniff::SniffSim, &rf, args.machine),
+        "srvfault" => replay_with(&e2e::srvfault::SrvFaultSim, &rf, args.machine),
         "timersim" => replay_with(&timersim::TimerSim, &rf, args.machine),
         "poolsim" => replay_with(&poolsim::PoolSim { property: leak(&rf.property) }, &rf, args.machine),
         other => {
@@ -251,7 +259,9 @@ fn determinism(args: &Args) -> i32 {
     match args.target.as_str() {
         "C18" => determinism_with(&iosim::IoSim, args),
         "C01" => determinism_with(&e2e::E2eSim, args),
+        "C07" => determinism_with(&e2e::shutdown::ShutdownSim, args),
         "C08" => determinism_with(&e2e::sniff::SniffSim, args),
+        "C09" => determinism_with(&e2e::srvfault::SrvFaultSim, args),
         "C10" | "C11" | "eyesim" => determinism_with(&eyesim::EyeSim { property: "C10" }, args),
         "C02" | "C03" | "C04" | "C05" | "C06" | "C14" | "C15" | "C17" | "C19" => {
             determinism_with(&poolsim::PoolSim { property: leak(&args.target) }, args)
